@@ -198,6 +198,7 @@ Record NS (s : state) : Prop := {
   ns_stop : n_stop (s_node s) = thr0 TNotStarted FStop;
   ns_main : n_main (s_node s) = false;
   ns_lsock : n_lsock (s_node s) = false;
+  ns_cap : ccap (n_pcd (s_node s)) = pcd_cap;
   ns_env : no_stop (s_env s) }.
 
 Lemma no_stop_remove ev k : no_stop ev -> no_stop (remove_nth ev k).
@@ -224,7 +225,7 @@ Proof. intros H. constructor; cbn; auto. Qed.
 
 Lemma ns_step cfg s l s' : GInv cfg s -> NS s -> step s l = Some s' -> NS s'.
 Proof.
-  intros Hg [Hp Hc Hd Ht Hs Hm Hl He] H. unfold step in H. unfold dead in H. rewrite Hp, Hm in H.
+  intros Hg [Hp Hc Hd Ht Hs Hm Hl Hcap He] H. unfold step in H. unfold dead in H. rewrite Hp, Hm in H.
   destruct l as [k|alt| |i r alt].
   - destruct (nth_error (s_env s) k) as [e|] eqn:Ek; [|discriminate]. injection H as <-.
     destruct (apply_env_node s e (no_stop_nth _ _ _ He Ek)) as (Hn & _ & _).
@@ -256,7 +257,7 @@ Proof.
   { unfold run. apply (run_inv state tid step (fun s => GInv cfg s /\ NS s)).
     - intros s l s' [Hg Hn] Hs. split; [eapply ginv_step; eauto | eapply ns_step; eauto].
     - split; [apply ginv_init | apply ns_init; exact Hns]. }
-  destruct H as [_ [Hp _ _ _ _ _ _ _]]. exact Hp.
+  destruct H as [_ [Hp _ _ _ _ _ _ _ _]]. exact Hp.
 Qed.
 
 (* with or without Stop: the only panic the system can ever raise comes from a send on the closed pConnDone
@@ -298,7 +299,7 @@ Proof.
   assert (H : P (run (init cfg ev) sch)).
   { unfold run. apply (run_inv state tid step P).
     - intros s l s' [[Hg Hn] [Hj Hun]] Hs. split; [split; [eapply ginv_step; eauto | eapply ns_step; eauto]|].
-      pose proof Hn as [Hp Hcx _ _ Hst Hm _ _].
+      pose proof Hn as [Hp Hcx _ _ Hst Hm _ _ _].
       unfold step in Hs. unfold dead in Hs. rewrite Hp, Hm in Hs.
       destruct l as [k|alt| |i r alt].
       + destruct (nth_error (s_env s) k) as [e|] eqn:Ek; [|discriminate]. injection Hs as <-. cbn. split.
